@@ -3,7 +3,7 @@
    Model: MtbddDefs.v (functional, follows ondriks_mtbdd.hh / apply{1,2,3}func.hh / classify_case.hh),
    MtbddStoreDefs.v (hash-consing store, for the operator== clause). *)
 From Coq Require Import List Arith Bool.
-From V Require Import MtbddDefs MtbddOps MtbddProofs MtbddStoreDefs MtbddStoreProofs.
+From V Require Import MtbddDefs MtbddOps MtbddProofs MtbddStoreDefs MtbddStoreProofs MtbddMemo.
 Import ListNotations.
 
 Section P.
@@ -141,6 +141,28 @@ Example C17_example :
   apply2 nat Nat.eq_dec Nat.add b a = c /\ get_value nat c [TX; T1] = 2.
 Proof. exact example_dd. Qed.
 
+(* (A) the memo table of one apply call (keyed by the pair of operand nodes, looked up before the case split, filled after the descent):
+   starting from a table whose entries are right for the operation (the empty table), every result is that of the memo-free apply2 and
+   the table stays right — for every fuel *)
+Theorem C17_apply2_memo_correct : forall (V : Type) (V_eq_dec : forall a b : V, {a = b} + {a <> b}) op fuel m a b m' r,
+  memo_ok V V_eq_dec op m -> apply2m V V_eq_dec fuel op m a b = Some (m', r) ->
+  r = apply2 V V_eq_dec op a b /\ memo_ok V V_eq_dec op m'.
+Proof. exact apply2m_correct. Qed.
+Theorem C17_apply2_memo_fresh : forall (V : Type) (V_eq_dec : forall a b : V, {a = b} + {a <> b}) op fuel a b m' r,
+  apply2m V V_eq_dec fuel op nil a b = Some (m', r) -> r = apply2 V V_eq_dec op a b.
+Proof. exact apply2m_fresh. Qed.
+(* a table that survives into a call with another leaf operation is wrong: refuted *)
+Theorem C17_apply2_memo_stale_refuted :
+  let a := Leaf 1 in let b := Leaf 2 in
+  exists m r, apply2m nat Nat.eq_dec 5 Nat.add nil a b = Some (m, r) /\
+              apply2m nat Nat.eq_dec 5 Nat.mul m a b = Some (m, Leaf 3) /\ apply2 nat Nat.eq_dec Nat.mul a b = Leaf 2.
+Proof. exact apply2m_stale_refuted. Qed.
+Example C17_apply2_memo_example :
+  let s := Nd 0 (Leaf 1) (Leaf 2) in let a := Nd 1 s s in let b := Nd 1 (Leaf 5) (Leaf 7) in
+  option_map snd (apply2m nat Nat.eq_dec 10 Nat.add nil (Nd 2 a a) (Nd 2 b b)) = Some (apply2 nat Nat.eq_dec Nat.add (Nd 2 a a) (Nd 2 b b)) /\
+  option_map (fun x => length (fst x)) (apply2m nat Nat.eq_dec 10 Nat.add nil (Nd 2 a a) (Nd 2 b b)) = Some 8.
+Proof. exact apply2m_example. Qed.
+
 Print Assumptions C17_construct_ev.
 Print Assumptions C17_construct_wf.
 Print Assumptions C17_get_value_ev.
@@ -174,3 +196,7 @@ Print Assumptions C17_dc_gate_model.
 Print Assumptions C17_void1_gate.
 Print Assumptions C17_void2_gate.
 Print Assumptions C17_example.
+Print Assumptions C17_apply2_memo_correct.
+Print Assumptions C17_apply2_memo_fresh.
+Print Assumptions C17_apply2_memo_stale_refuted.
+Print Assumptions C17_apply2_memo_example.
